@@ -318,7 +318,8 @@ func splitAnd(s string) []string {
 }
 
 func (t *FnTrans) obligeNamed(name, kind, goal, note string) {
-	if t.ct != nil && t.ct.Opts["only-ghost-asserts"] != "" && kind != "gassert" && !strings.HasPrefix(kind, "inv") {
+	if t.ct != nil && t.ct.Opts["only-ghost-asserts"] != "" && kind != "gassert" && !strings.HasPrefix(kind, "inv") &&
+		!(t.ct.Opts["check-bounds"] != "" && (kind == "idx" || kind == "slice" || kind == "make" || kind == "alloc")) {
 		// the function is checked for its ghost assertions (an order / protocol statement) only: everything else -
 		// memory safety, lock discipline, frames - is abstracted: neither demanded nor assumed
 		t.abstr["only the ghost assertions are checked: "+kind+" obligations are not generated"] = true
